@@ -31,8 +31,9 @@ class Instance:
     def __init__(self, name, fn, params=None, W=64, budget_s=600,
                  expect='hold', max_decisions=20000, witness_every=1,
                  note='', max_paths=200000, conc_timeout_s=10,
-                 solver_timeout_ms=120000):
+                 solver_timeout_ms=120000, max_violations=25):
         self.name = name
+        self.max_violations = max_violations
         self.fn = fn                # function name in the harness module
         self.params = params or {}
         self.W = W
@@ -284,7 +285,7 @@ def _explore_once(mod, modname, inst, seed, W, res, t0):
         elif kind == 'unwind':
             candidate(ctx, 'unwind', p['witness'], p,
                       'bound hit: %s' % p['exc'])
-        if len(res['violations']) >= 25:
+        if len(res['violations']) >= inst.get('max_violations', 25):
             return True
         return False
 
@@ -308,7 +309,8 @@ def _explore_once(mod, modname, inst, seed, W, res, t0):
     res['complete'] = bool(ctx.complete)
     if state['overflow']:
         return 'overflow'
-    if not ctx.complete and len(res['violations']) < 25:
+    if not ctx.complete and \
+            len(res['violations']) < inst.get('max_violations', 25):
         res['inconclusive'].append(
             'exploration incomplete (budget %ss / max paths)'
             % inst['budget_s'])
@@ -405,12 +407,20 @@ def report(pid, tier, seed, mod, results, t0):
     known_hit = []
     selftest_fail = []
     vacuous = []
+    reported = []
     for r in results:
         nm = r['name']
         if r['expect'] == 'violation':
             # sentinel self-test: a deliberately wrong oracle MUST be caught
             if not r['violations']:
                 selftest_fail.append(nm)
+            continue
+        if r['expect'] == 'report':
+            # outside the claim (e.g. unsupported versions): listed in the
+            # evidence, never affects the verdict
+            for v in r['violations']:
+                reported.append({'instance': nm, 'key': v['key'],
+                                 'what': v['what']})
             continue
         for msg in r['inconclusive']:
             inconclusive.append('%s: %s' % (nm, msg))
@@ -478,7 +488,10 @@ def report(pid, tier, seed, mod, results, t0):
 
     wall = time.time() - t0
     write_evidence(pid, tier, seed, mod, results, confirmed, known_hit,
-                   inconclusive, wall)
+                   inconclusive, wall, reported)
+    if reported:
+        lines.append('REPORTED (outside the claim, see evidence): %d '
+                     'findings' % len(reported))
     for ln in lines:
         print(ln)
     tot_paths = sum(r['paths'] for r in results)
@@ -514,8 +527,8 @@ def write_replay(pid, modname, v):
 
 
 def write_evidence(pid, tier, seed, mod, results, confirmed, known_hit,
-                   inconclusive, wall):
-    main_r = [r for r in results if r['expect'] != 'violation']
+                   inconclusive, wall, reported=()):
+    main_r = [r for r in results if r['expect'] == 'hold']
     sent = [r for r in results if r['expect'] == 'violation']
     queries = {}
     for r in results:
@@ -572,6 +585,7 @@ def write_evidence(pid, tier, seed, mod, results, confirmed, known_hit,
         'known_findings_observed': sorted(set(v['key']
                                               for v, _ in known_hit)),
         'new_violations': [v['key'] for v, _ in confirmed],
+        'reported_outside_claim': list(reported)[:200],
     }
     ev = {
         'property_id': pid, 'tier': tier if tier in ('quick', 'thorough')
